@@ -50,11 +50,17 @@ TC     == Comp("Contract", Loc, <<Fld("total", P("UFix64"))>>, <<>>, <<>>)
 TE     == Comp("Enum", Q("E"), <<Fld("rawValue", P("UInt8"))>>, <<>>, << P("UInt8") >>)
 TA     == Comp("Attachment", Q("A"), <<Fld("n", P("Int"))>>, <<>>, << P("AnyStruct") >>)
 THash  == Comp("Enum", "HashAlgorithm", <<Fld("rawValue", P("UInt8"))>>, <<>>, << P("UInt8") >>)   \* native type: no location
+\* composite types with the SAME qualified name C.S at other addresses, declared with other field orders / counts:
+\* every type definition is encoded (and, in deterministic mode, sorted) on its own
+TS02   == Comp("Struct", "A.0000000000000002.C.S", <<Fld("b", P("String")), Fld("a", P("Int"))>>, <<>>, <<>>)
+TS03   == Comp("Struct", "A.0000000000000003.C.S", <<Fld("zz", P("Bool")), Fld("a", P("Int")), Fld("m", P("UInt8"))>>, <<>>, <<>>)
+TR02   == Comp("Resource", "A.0000000000000002.C.R", <<Fld("n", P("Int")), Fld("uuid", P("UInt64")), Fld("extra", P("String"))>>, <<>>, <<>>)
+TEv02  == Comp("Event", "A.0000000000000002.C.Ev", <<Fld("a", P("String")), Fld("z", P("Int"))>>, << <<Par("", "a", P("String")), Par("with", "z", P("Int"))>> >>, <<>>)
 TSI    == Comp("StructInterface", Q("SI"), <<>>, <<>>, <<>>)
 TSI2   == Comp("StructInterface", Q("SI2"), <<Fld("f", P("Int"))>>, <<>>, <<>>)
 TRI    == Comp("ResourceInterface", Q("RI"), <<>>, <<>>, <<>>)
 TCI    == Comp("ContractInterface", Q("CI"), <<>>, <<>>, <<>>)
-Nominals == {THash, TS, TSInit, TNode, TH, TZ, TSLoc, TR, TRH, TEv, TEvH, TEv0, TC, TE, TA, TSI, TSI2, TRI, TCI}
+Nominals == {TS02, TS03, TR02, TEv02, THash, TS, TSInit, TNode, TH, TZ, TSLoc, TR, TRH, TEv, TEvH, TEv0, TC, TE, TA, TSI, TSI2, TRI, TCI}
 
 E1 == Q("E1")
 E2 == Q("E22")
@@ -161,6 +167,28 @@ CompLeaves == {CompV(TS, <<Num("Int", "42"), Str("$s:ascii")>>), CompV(TS, <<Num
                CompV(TA, <<Num("Int", "4")>>),
                \* a struct value with one attachment: exported as an extra, unnamed field value
                CompV(TS, <<Num("Int", "42"), Str("$s:ascii"), CompV(TA, <<Num("Int", "4")>>)>>)}
+\* one value holding composites of same-named types from different addresses (array, dictionary, struct field, nested)
+VS01 == CompV(TS, <<Num("Int", "1"), Str("$s:a")>>)
+VS02 == CompV(TS02, <<Str("$s:b"), Num("Int", "2")>>)
+VS03 == CompV(TS03, <<BoolV(TRUE), Num("Int", "3"), Num("UInt8", "7")>>)
+VR01 == CompV(TR, <<Num("UInt64", "7"), Num("Int", "3")>>)
+VR02 == CompV(TR02, <<Num("Int", "4"), Num("UInt64", "8"), Str("$s:ab")>>)
+AnyS == P("AnyStruct")
+SameNameValues ==
+  {Arr(VArr(AnyS), <<VS01, VS02>>), Arr(VArr(AnyS), <<VS02, VS01>>), Arr(VArr(AnyS), <<VS03, VS01, VS02>>), Arr(VArr(AnyS), <<VS02, VS03>>),
+   Arr(VArr(AnyS), <<VS01, VS03>>), Arr(CArr(AnyS, 2), <<VS03, VS02>>),
+   Dict(DictT(P("String"), AnyS), <<KV(Str("$s:a"), VS01), KV(Str("$s:b"), VS02)>>),
+   Dict(DictT(P("String"), AnyS), <<KV(Str("$s:a"), VS02), KV(Str("$s:b"), VS03), KV(Str("$s:ab"), VS01)>>),
+   CompV(TH, << Arr(VArr(AnyS), <<VS02, VS01>>) >>),
+   CompV(TH, << CompV(TH, << Arr(VArr(AnyS), <<VS01, VS03>>) >>) >>),
+   Arr(VArr(AnyS), <<CompV(TH, <<VS02>>), CompV(TH, <<VS01>>)>>),
+   Some(Arr(VArr(OptT(AnyS)), <<Some(VS03), NilV, Some(VS01)>>)),
+   Arr(VArr(P("AnyResource")), <<VR01, VR02>>), Arr(VArr(P("AnyResource")), <<VR02, VR01>>),
+   CompV(TRH, <<Num("UInt64", "1"), Arr(VArr(P("AnyResource")), <<VR02, VR01>>)>>),
+   Arr(VArr(AnyS), <<CompV(TEv, <<Num("Int", "9"), Str("$s:a")>>), CompV(TEv02, <<Str("$s:b"), Num("Int", "8")>>)>>),
+   Arr(VArr(AnyS), <<CompV(TEv02, <<Str("$s:b"), Num("Int", "8")>>), CompV(TEv, <<Num("Int", "9"), Str("$s:a")>>)>>),
+   Arr(VArr(AnyS), <<TypeV(TS02), VS01>>), TypeV(DictT(P("String"), VArr(TS03)))}
+
 CapLeaves == {CapV("0", "0000000000000001", RefT(Unauth, P("Int"))),
               CapV("18446744073709551615", "ffffffffffffffff", RefT([k |-> "conj", ents |-> <<E2, E1>>], TR)),
               CapV("5", "00000000000000ab", RefT(Unauth, InterT(<<TSI2, TSI>>))),
@@ -171,6 +199,7 @@ FunLeaves == {FunV(t) : t \in {FunT("view", <<>>, <<>>, P("Int")), FunT("impure"
 TypeLeaves == {TypeV(t) : t \in TypeUniverse}
 
 Leaves == IntLeaves \cup MCFixUniverse \cup SimpleLeaves \cup RangeLeaves \cup CompLeaves \cup CapLeaves \cup FunLeaves
+          \cup {VS02, VS03, VR02}
 
 Hashable(v) == v.k \in {"bool", "str", "chr", "addr", "num", "fix", "path", "type"} \/ (v.k = "comp" /\ v.t.ck = "Enum")
 AnyOf(v) == IF IsResource(v) THEN P("AnyResource") ELSE P("AnyStruct")
@@ -226,5 +255,5 @@ MCStorageOnly == {
 
 ASSUME PrintT(ToJson([storageonly |-> MCStorageOnly]))
 
-MCUniverse == Leaves \cup TypeLeaves \cup L1 \cup L2
+MCUniverse == Leaves \cup TypeLeaves \cup L1 \cup L2 \cup SameNameValues
 =============================================================================
